@@ -1,7 +1,7 @@
 (* C13, group A importers: proofs of the per-importer row theorems and of the shared back half. *)
 From Coq Require Import ZArith QArith List Bool Lia.
 From Knut Require Import Model.Str Model.Dec Model.Date Model.Account Model.Ledger Model.Journal
-     Model.Table Model.Report Model.JPrinter Model.ImpCommonA
+     Model.Pipeline Model.Table Model.Report Model.JPrinter Model.ImpCommonA
      Model.Imp.Swisscard2 Model.Imp.Viac Model.Imp.Cumulus Model.Imp.Postfinance Model.Imp.Swisscard
      Model.Imp.Supercard
      Spec.ImpSpecA Proofs.DecProofs Proofs.DecValue Proofs.PairProofs Proofs.StrProofs.
@@ -118,7 +118,7 @@ Proof. destruct o; [eauto|discriminate]. Qed.
 
 Lemma sc2_row acct r : acct <> tbd_account -> sc2_wf_row r = true ->
   exists t, sc2_booking acct r = MOk (DTxn t) /\
-            books acct tbd_account (sc2_fact r) t /\ t_desc t = sc2_text r.
+            books acct tbd_account (sc2_fact r) t /\ t_desc t = build_desc (sc2_text r).
 Proof.
   intros Hne Hwf. unfold sc2_wf_row in Hwf. apply andb4 in Hwf. destruct Hwf as (Hl & Hd & Hc & Hq).
   unfold len_is in Hl.
@@ -137,7 +137,7 @@ Qed.
 Lemma sc2_rows_faithful acct rows : acct <> tbd_account -> forallb sc2_wf_row rows = true ->
   exists ts, sc2_rows acct (map CRec rows) = MOk (map DTxn ts) /\
     Forall2 (books acct tbd_account) (map sc2_fact rows) ts /\
-    map t_desc ts = map sc2_text rows.
+    map t_desc ts = map build_desc (map sc2_text rows).
 Proof.
   intros Hne. induction rows as [|r rows IH]; intros Hwf.
   - exists []. cbn. repeat split; constructor.
@@ -152,7 +152,7 @@ Theorem swisscard2_faithful acct header rows :
   acct <> tbd_account -> forallb sc2_wf_row rows = true ->
   exists ts, import_swisscard2 acct (CRec header :: map CRec rows) = MOk (map DTxn ts) /\
     Forall2 (books acct tbd_account) (map sc2_fact rows) ts /\
-    map t_desc ts = map sc2_text rows.
+    map t_desc ts = map build_desc (map sc2_text rows).
 Proof. intros Hne Hwf. cbn [import_swisscard2]. apply sc2_rows_faithful; assumption. Qed.
 
 (* ---------------------------------------------------------------- ch.viac *)
@@ -206,7 +206,7 @@ Proof. unfold sc_clean, sc_amount_text, remove_all. apply sc_clean_fuel_spec. li
 
 Lemma sc_row_booking acct r : acct <> tbd_account -> sc_is_booking r = true -> sc_wf_row r = true ->
   exists t, sc_booking acct r = MOk (Some (DTxn t)) /\
-            books acct tbd_account (sc_fact r) t /\ t_desc t = sc_text r.
+            books acct tbd_account (sc_fact r) t /\ t_desc t = build_desc (sc_text r).
 Proof.
   intros Hne Hb Hwf. unfold sc_wf_row in Hwf. rewrite Hb in Hwf.
   apply andb3 in Hwf. destruct Hwf as (Hl & Hd & Hq). unfold len_is in Hl.
@@ -235,7 +235,7 @@ Theorem swisscard_faithful acct rows :
   acct <> tbd_account -> forallb sc_wf_row rows = true ->
   exists ts, import_swisscard acct (map CRec rows) = MOk (map DTxn ts) /\
     Forall2 (books acct tbd_account) (map sc_fact (filter sc_is_booking rows)) ts /\
-    map t_desc ts = map sc_text (filter sc_is_booking rows).
+    map t_desc ts = map build_desc (map sc_text (filter sc_is_booking rows)).
 Proof.
   intros Hne. induction rows as [|r rows IH]; intros Hwf.
   - exists []. cbn. repeat split; constructor.
@@ -263,7 +263,7 @@ Qed.
 
 Lemma sup_row_booking acct r : acct <> tbd_account -> sup_ignored r = false -> sup_wf_row r = true ->
   exists t, sup_line acct r = MOk (Some (DTxn t)) /\
-            books acct tbd_account (sup_fact r) t /\ t_desc t = sup_text r.
+            books acct tbd_account (sup_fact r) t /\ t_desc t = build_desc (sup_text r).
 Proof.
   intros Hne Hi Hwf. unfold sup_wf_row in Hwf. rewrite Hi in Hwf. cbn [orb] in Hwf.
   apply andb4 in Hwf. destruct Hwf as (Hl & Hd & Ha & Hc). unfold len_is in Hl.
@@ -292,7 +292,7 @@ Lemma sup_lines_faithful acct rows :
   acct <> tbd_account -> forallb sup_wf_row rows = true ->
   exists ts, sup_lines acct (map CRec rows) = MOk (map DTxn ts) /\
     Forall2 (books acct tbd_account) (map sup_fact (filter sup_is_booking rows)) ts /\
-    map t_desc ts = map sup_text (filter sup_is_booking rows).
+    map t_desc ts = map build_desc (map sup_text (filter sup_is_booking rows)).
 Proof.
   intros Hne. induction rows as [|r rows IH]; intros Hwf.
   - exists []. cbn. repeat split; constructor.
@@ -310,7 +310,7 @@ Theorem supercard_faithful acct header rows :
   acct <> tbd_account -> forallb sup_wf_row rows = true ->
   exists ts, import_supercard acct (CRec sup_first :: CRec header :: map CRec rows) = MOk (map DTxn ts) /\
     Forall2 (books acct tbd_account) (map sup_fact (filter sup_is_booking rows)) ts /\
-    map t_desc ts = map sup_text (filter sup_is_booking rows).
+    map t_desc ts = map build_desc (map sup_text (filter sup_is_booking rows)).
 Proof. intros Hne Hwf. cbn. apply sup_lines_faithful; assumption. Qed.
 
 (* ---------------------------------------------------------------- ch.postfinance *)
@@ -362,7 +362,7 @@ Lemma pf_row acct cur r : acct <> tbd_account -> pf_wf_row r = true ->
     r = f0 :: f1 :: f2 :: f3 :: f4 :: f5 :: tl /\
     (Nat.ltb (length r) 7 || Nat.ltb 8 (length r)) = false /\
     parse_dmy f0 = Some d /\ pf_amount f2 f3 = MOk q /\
-    books acct tbd_account (pf_fact cur r) (mkTxn d (pf_desc f1 f5 f4) (pair_build tbd_account acct cur q dec_nil) None) /\
+    books acct tbd_account (pf_fact cur r) (mkTxn d (build_desc (pf_desc f1 f5 f4)) (pair_build tbd_account acct cur q dec_nil) None) /\
     pf_desc f1 f5 f4 = pf_text r.
 Proof.
   intros Hne Hwf. unfold pf_wf_row in Hwf. apply andb4 in Hwf. destruct Hwf as (Hl & Hd & Hx & Hq).
@@ -383,7 +383,7 @@ Lemma pf_bookings_faithful dbg acct cur rows : forall d1 rest,
   acct <> tbd_account -> forallb pf_wf_row rows = true -> pf_is_row d1 = false ->
   exists ts, pf_bookings dbg acct cur (map CRec rows ++ CRec d1 :: rest) = (MOk (map DTxn ts, rest), pf_debug_line dbg d1) /\
     Forall2 (books acct tbd_account) (map (pf_fact cur) rows) ts /\
-    map t_desc ts = map pf_text rows.
+    map t_desc ts = map build_desc (map pf_text rows).
 Proof.
   intros d1 rest Hne. induction rows as [|r rows IH]; intros Hwf Hd1.
   - exists []. cbn [map app pf_bookings]. unfold pf_is_row in Hd1.
@@ -395,7 +395,7 @@ Proof.
   - cbn [forallb] in Hwf. apply andb_prop in Hwf. destruct Hwf as [Hr Hrs].
     destruct (IH Hrs Hd1) as (ts & Hts & Hbs & Hds).
     destruct (pf_row acct cur r Hne Hr) as (f0 & f1 & f2 & f3 & f4 & f5 & tl & d & q & Hr' & Hlen & Hd & Ha & Hbk & Hdesc).
-    exists (mkTxn d (pf_desc f1 f5 f4) (pair_build tbd_account acct cur q dec_nil) None :: ts).
+    exists (mkTxn d (build_desc (pf_desc f1 f5 f4)) (pair_build tbd_account acct cur q dec_nil) None :: ts).
     cbn [map app]. cbn [pf_bookings]. rewrite Hlen. rewrite Hr' at 1. rewrite Hd, Ha, Hts. cbn [mbind fst snd].
     repeat split; [constructor; assumption|]. cbn [map t_desc]. rewrite Hdesc, Hds. reflexivity.
 Qed.
@@ -420,7 +420,7 @@ Theorem postfinance_faithful dbg acct kvs header rows d1 ds :
   forallb pf_wf_row rows = true -> pf_is_row d1 = false -> forallb (fun r => len_is r 1) ds = true ->
   exists ts, import_postfinance dbg acct (pf_statement kvs header rows d1 ds) = (MOk (map DTxn ts), pf_debug_line dbg d1) /\
     Forall2 (books acct tbd_account) (map (pf_fact cur) rows) ts /\
-    map t_desc ts = map pf_text rows.
+    map t_desc ts = map build_desc (map pf_text rows).
 Proof.
   intros cur Hne Hk Hh Hc Hrows Hd1 Hds.
   unfold import_postfinance, pf_statement. rewrite (pf_kv_loop kvs [] header _ Hk Hh).
@@ -555,7 +555,7 @@ Qed.
 
 Lemma cum_builder_books acct e : acct <> tbd_account ->
   Forall2 (books acct tbd_account) (cum_facts e)
-          (map (fun b => let '(d, desc, q) := b in mkTxn d desc (pair_build tbd_account acct s_CHF q dec_nil) None) (cum_builder e)) /\
+          (map (fun b => let '(d, desc, q) := b in mkTxn d (build_desc desc) (pair_build tbd_account acct s_CHF q dec_nil) None) (cum_builder e)) /\
   map (fun b : cbuilder => snd (fst b)) (cum_builder e) = cum_texts e.
 Proof.
   intros Hne. destruct e as [r|r cs|r cs]; cbn [cum_facts cum_builder cum_texts map]; split; try reflexivity; try constructor; try constructor;
@@ -563,13 +563,13 @@ Proof.
 Qed.
 
 Definition cum_txn_of (acct : account) (b : cbuilder) : txn :=
-  let '(d, desc, q) := b in mkTxn d desc (pair_build tbd_account acct s_CHF q dec_nil) None.
+  let '(d, desc, q) := b in mkTxn d (build_desc desc) (pair_build tbd_account acct s_CHF q dec_nil) None.
 
 Theorem cumulus_faithful acct entries :
   acct <> tbd_account -> forallb cum_wf_entry entries = true ->
   exists ts, import_cumulus acct (map CRec (flat_map cum_records entries)) = MOk (map DTxn ts) /\
     Forall2 (books acct tbd_account) (flat_map cum_facts entries) ts /\
-    map t_desc ts = flat_map cum_texts entries.
+    map t_desc ts = map build_desc (flat_map cum_texts entries).
 Proof.
   intros Hne Hwf. exists (map (cum_txn_of acct) (flat_map cum_builder entries)).
   unfold import_cumulus. rewrite (cum_loop_entries entries [] Hwf). cbn [mbind].
@@ -579,7 +579,7 @@ Proof.
     destruct IH as [IH1 IH2]. destruct (cum_builder_books acct e Hne) as [H1 H2].
     cbn [flat_map]. rewrite !map_app. split.
     + apply Forall2_app; assumption.
-    + rewrite IH2. f_equal. rewrite <- H2. rewrite map_map. apply map_ext. intros [[d desc] q]. reflexivity.
+    + rewrite IH2. f_equal. rewrite <- H2. rewrite !map_map. apply map_ext. intros [[d desc] q]. reflexivity.
 Qed.
 
 (* ---------------------------------------------------------------- shared back half *)
@@ -654,11 +654,56 @@ Definition w_acct_flag : str := [65;115;115;101;116;115;58;65]%Z.            (* 
 Definition w_quote_row : list str :=
   [w_date; [34]; [97]; [97]; s_CHF; [49]; []; []; [97]; [97]; [97]; [97]]%Z.
 
+(* since fix faa0268 (Builder.Build maps the double quote to a single quote) the header line of
+   that row has exactly the two delimiting quotes *)
 Lemma quote_witness :
   sc2_wf_row w_quote_row = true /\
   ir_status (run_swisscard2 w_acct_flag [CRec []; CRec w_quote_row]) = SOk /\
-  count_quotes (first_line (ir_stdout (run_swisscard2 w_acct_flag [CRec []; CRec w_quote_row]))) = 3%nat.
+  count_quotes (first_line (ir_stdout (run_swisscard2 w_acct_flag [CRec []; CRec w_quote_row]))) = 2%nat.
 Proof. vm_compute. repeat split. Qed.
+
+(* Build as pinned (description verbatim): the same description printed by the same printer
+   gives a header line with three double quotes (F14) *)
+Lemma quote_witness_pinned :
+  count_quotes (first_line (print_directives
+     [simple_txn_pinned 738000 [34]%Z [s_Assets; [65]%Z] tbd_account s_CHF (of_int 1)])) = 3%nat.
+Proof. vm_compute. reflexivity. Qed.
+
+(* no description built by Builder.Build contains a double quote *)
+Lemma build_desc_no_quote s : count_quotes (build_desc s) = 0%nat.
+Proof.
+  unfold count_quotes, build_desc. induction s as [|c s IH]; [reflexivity|].
+  cbn [map filter]. destruct (c =? 34)%Z eqn:Hc.
+  - cbn. exact IH.
+  - rewrite Z.eqb_sym in Hc. rewrite Hc. exact IH.
+Qed.
+
+Lemma simple_txn_header date desc credit debit com q :
+  exists rest,
+    print_directives [simple_txn date desc credit debit com q] =
+    format_date date ++ [32; 34]%Z ++ build_desc desc ++ [34; 10]%Z ++ rest.
+Proof.
+  unfold print_directives, simple_txn, builder_of.
+  cbn [fold_left builder_add new_builder b_days upd_day t_date].
+  unfold print_journal, sort_days, add_txn_day, empty_day.
+  cbn [map d_txns app d_date d_prices d_opens d_asserts d_closes d_normalized].
+  unfold set_txns, sort_by. cbn [rev app fold_right insert_sorted d_txns d_date d_prices d_opens d_asserts d_closes d_normalized].
+  cbn [map concat]. unfold print_day.
+  cbn [d_txns d_date d_prices d_opens d_asserts d_closes map concat app print_asserts].
+  unfold print_txn at 1. cbn [t_targets t_date t_desc app].
+  rewrite <- !app_assoc. cbn [app]. rewrite <- !app_assoc. cbn [app]. eexists. reflexivity.
+Qed.
+
+Lemma build_desc_length s : length (build_desc s) = length s.
+Proof. apply map_length. Qed.
+
+(* bytes other than the double quote are kept *)
+Lemma build_desc_id s : count_quotes s = 0%nat -> build_desc s = s.
+Proof.
+  unfold count_quotes, build_desc. induction s as [|c s IH]; [reflexivity|].
+  cbn [map filter]. rewrite (Z.eqb_sym 34 c). destruct (c =? 34)%Z eqn:Hc; cbn [length]; [discriminate|].
+  intros H. rewrite IH by assumption. reflexivity.
+Qed.
 
 (* a postfinance statement without rows: the column header and one disclaimer line *)
 Lemma pf_stdout_witness :
@@ -673,7 +718,7 @@ Proof. vm_compute. repeat split. discriminate. Qed.
 Theorem swisscard2_run flag acct header rows :
   account_flag flag = AAcc acct -> acct <> tbd_account -> forallb sc2_wf_row rows = true ->
   exists ts, run_swisscard2 flag (CRec header :: map CRec rows) = mkRun (print_directives (map DTxn ts)) SOk /\
-    Forall2 (books acct tbd_account) (map sc2_fact rows) ts /\ map t_desc ts = map sc2_text rows.
+    Forall2 (books acct tbd_account) (map sc2_fact rows) ts /\ map t_desc ts = map build_desc (map sc2_text rows).
 Proof.
   intros Hf Hne Hwf. destruct (swisscard2_faithful acct header rows Hne Hwf) as (ts & Hi & Hb & Hd).
   exists ts. split; [eapply run_swisscard2_ok; eassumption|]. split; assumption.
@@ -683,7 +728,7 @@ Theorem swisscard_run flag acct rows :
   account_flag flag = AAcc acct -> acct <> tbd_account -> forallb sc_wf_row rows = true ->
   exists ts, run_swisscard flag (map CRec rows) = mkRun (print_directives (map DTxn ts)) SOk /\
     Forall2 (books acct tbd_account) (map sc_fact (filter sc_is_booking rows)) ts /\
-    map t_desc ts = map sc_text (filter sc_is_booking rows).
+    map t_desc ts = map build_desc (map sc_text (filter sc_is_booking rows)).
 Proof.
   intros Hf Hne Hwf. destruct (swisscard_faithful acct rows Hne Hwf) as (ts & Hi & Hb & Hd).
   exists ts. split; [eapply run_swisscard_ok; eassumption|]. split; assumption.
@@ -693,7 +738,7 @@ Theorem supercard_run flag acct header rows :
   account_flag flag = AAcc acct -> acct <> tbd_account -> forallb sup_wf_row rows = true ->
   exists ts, run_supercard flag (CRec sup_first :: CRec header :: map CRec rows) = mkRun (print_directives (map DTxn ts)) SOk /\
     Forall2 (books acct tbd_account) (map sup_fact (filter sup_is_booking rows)) ts /\
-    map t_desc ts = map sup_text (filter sup_is_booking rows).
+    map t_desc ts = map build_desc (map sup_text (filter sup_is_booking rows)).
 Proof.
   intros Hf Hne Hwf. destruct (supercard_faithful acct header rows Hne Hwf) as (ts & Hi & Hb & Hd).
   exists ts. split; [eapply run_supercard_ok; eassumption|]. split; assumption.
@@ -703,7 +748,7 @@ Theorem cumulus_run flag acct entries :
   account_flag flag = AAcc acct -> acct <> tbd_account -> forallb cum_wf_entry entries = true ->
   exists ts, run_cumulus flag (map CRec (flat_map cum_records entries)) = mkRun (print_directives (map DTxn ts)) SOk /\
     Forall2 (books acct tbd_account) (flat_map cum_facts entries) ts /\
-    map t_desc ts = flat_map cum_texts entries.
+    map t_desc ts = map build_desc (flat_map cum_texts entries).
 Proof.
   intros Hf Hne Hwf. destruct (cumulus_faithful acct entries Hne Hwf) as (ts & Hi & Hb & Hd).
   exists ts. split; [eapply run_cumulus_ok; eassumption|]. split; assumption.
@@ -717,7 +762,7 @@ Theorem postfinance_run dbg flag acct kvs header rows d1 ds :
   exists ts, run_postfinance dbg flag (pf_statement kvs header rows d1 ds) =
              mkRun (pf_debug_line dbg d1 ++ print_directives (map DTxn ts)) SOk /\
     Forall2 (books acct tbd_account) (map (pf_fact cur) rows) ts /\
-    map t_desc ts = map pf_text rows.
+    map t_desc ts = map build_desc (map pf_text rows).
 Proof.
   intros cur Hf Hne Hk Hh Hc Hr Hd1 Hds.
   destruct (postfinance_faithful dbg acct kvs header rows d1 ds Hne Hk Hh Hc Hr Hd1 Hds) as (ts & Hi & Hb & Hd).
